@@ -67,6 +67,11 @@ def run_case(ctx):
         ctx.fail('design', dict(sig, what='design'), f'design does not list every condition once per partition: '
                  f'{cond_vec.tolist()} / {part_vec.tolist()}', dict(n_cond=n_cond, n_part=n_part))
         return
+    # trial order: as designed, or randomised (conditions then do not first appear in ascending order)
+    order = gen.pick(rng, ['design', 'shuffled'])
+    if order == 'shuffled':
+        cond_vec = cond_vec[rng.permutation(len(cond_vec))]
+    sig['order'] = order
     labels = [int(c) for c in cond_vec]
     arg = cond_vec if cond_input == 'vector' else np.eye(n_cond)[labels]
     wit = lambda **k: dict(pred=pred, theta=theta, n_channel=n_ch, n_part=n_part, n_sim=n_sim, signal=signal,  # noqa
